@@ -6,6 +6,7 @@ Line-protocol driver for C08 (one output line per input line).
 opt     <mode> <gap> <a> <b> <k2> <matrix>                                → ok <score>
 chk     <mode> <gap> <a> <b> <k2> <matrix> <maxNumber> <score> <traces>   → ok n=<n> valid=<k> scored=<k> sound=<k> distinct=<0|1> count=<0|1> model=<0|1>
 rescore <tp>   <gap> <a> <b> <k2> <matrix> <trace>                        → ok <score> | ERR:IndexError
+args    <gap> <max_number>                                                  → ok | ERR:ValueError | ERR:OverflowError
 ```
 mode `g|s|l`; gap `L:<g>` or `A:<open>:<ext>`; `<a>`,`<b>` code lists (`_` = empty); matrix row-major with `k2`
 columns; a trace is `i:j;i:j;…` (`_` = empty), traces are separated by `/` (`-` = no trace at all).
@@ -73,7 +74,14 @@ def step (_ : Unit) (line : String) : Unit × String :=
         -- `C08_align_optimal_lin/_aff`) returns when it is not truncated
         let modelOk : Bool :=
           let np := nPaths mode gap M a b
-          if np > 300 then true else
+          if np > 300 then
+            -- too many co-optimal paths to enumerate: run the model with the actual max_number; the branch order
+            -- and the counter mirror follow_trace, so exactly the same traces must survive the truncation
+            let r := alignOptimalModel mode gap M a b mx
+            r.2.length == ts.length && alns.all fun o => match o with
+              | some aln => r.2.contains aln
+              | none => false
+          else
           let r := alignOptimalModel mode gap M a b np
           r.1 == optT mode gap M a b && r.2.length == np && alns.all fun o => match o with
             | some aln => r.2.contains aln
@@ -82,6 +90,13 @@ def step (_ : Unit) (line : String) : Unit × String :=
         s!"distinct={if distinctNonEmpty ts then 1 else 0} count={if ts.length ≤ mx then 1 else 0} " ++
         s!"model={if modelOk then 1 else 0}"
       | _, _, _, _, _, _, _, _ => "bad-op"
+    | ["args", gap, mx] =>
+      match parseGap gap, mx.toInt? with
+      | some gap, some mx =>
+        match argCheck gap mx with
+        | none => "ok"
+        | some e => "ERR:" ++ e.toString
+      | _, _ => "bad-op"
     | ["rescore", tp, gap, a, b, k2, mat, trace] =>
       match parseGap gap, parseNats a, parseNats b, parseMat k2 mat, parseTrace trace with
       | some gap, some a, some b, some M, some t =>
